@@ -6,9 +6,8 @@
     payload (database, _database, measurement, _measurement, m as tag / field / column, string or
     integer, singly and in pairs), with the handler's database resolution, the permission checks,
     the buffer key, the WAL entry class and the two re-ingestion paths (WAL recovery callbacks,
-    replication ingest handler) as written.  LiveOK is checked as an invariant; ReplayOK,
-    ReplicaOK and the CSV preamble (modelled as written, MC_aswritten.cfg) run with allow_violation: their
-    counterexamples are candidates only.
+    replication ingest handler) as written.  LiveOK, ReplayOK, ReplicaOK are invariants; the
+    pre-repair constants (MC_prefix.cfg) are a negative control TLC must reject.
 (G) every request of the model is replayed on the real handlers with a recording RBACChecker
     (allows (prod, cpu|mem)) and a recording storage backend; the WAL payloads handed to the
     replication hook are (a) applied with the real Receiver.applyEntry + coordinator ingest handler
@@ -32,15 +31,16 @@ def run(ctx):
         if mc.coverage.get(a, (0, 0))[0] == 0:
             raise InfraError("vacuous model: action %s never fired" % a)
     ctx.note("tlc_model_check", {"cfg": "MC_%s.cfg" % size, "distinct": mc.distinct, "generated": mc.generated,
-                                 "depth": mc.depth, "invariants": ["TypeOK", "LiveOK", "RejectedStoresNothing"],
+                                 "depth": mc.depth, "invariants": ["TypeOK", "LiveOK", "ReplayOK", "ReplicaOK", "RejectedStoresNothing"],
                                  "actions_fired": {k: v[0] for k, v in mc.coverage.items() if k in ACTIONS}})
-    cands = {}
-    for cfg in ("MC_aswritten.cfg",):
-        r = ctx.tlc("writeauth", "WriteAuth", cfg, allow_violation=True, timeout=900, workers=2)
-        cands[cfg] = r.violated
-    ctx.note("tlc_as_written_candidates", {"violated": cands,
-                                           "meaning": "model of the re-ingestion legs / CSV preamble as written; "
-                                                      "candidates only, decided by the replay on real code"})
+    # negative control: the constants of the code BEFORE the repairs 6d2312a / 138d6b9 (user columns
+    # override the routing keys, replica falls to "default", CSV preamble falls through) must be
+    # rejected by TLC -- shows the invariants can fail.
+    neg = ctx.tlc("writeauth", "WriteAuth", "MC_prefix.cfg", allow_violation=True, timeout=900, workers=2)
+    if not neg.violated:
+        raise InfraError("negative control MC_prefix.cfg was not rejected by TLC: the invariants are vacuous")
+    ctx.note("tlc_negative_control", {"cfg": "MC_prefix.cfg", "violated": neg.violated,
+                                      "meaning": "pre-repair behaviour; expected to be rejected"})
 
     gen = ctx.tlc("writeauth", "WriteAuth", "Gen_%s.cfg" % size, timeout=1800, workers=4)
     if not gen.traces:
